@@ -214,23 +214,38 @@ def build_problem(case, algo, params, nagents, replication_capacity=1000):
 
 
 def run_orchestrated(case, algo, params, nagents, dist_kind, seed, timeout=20.0, lines=False, monitor=None, jitter_p=0.2,
-                     replication=None, k_target=None, pause_resume=False, collect_moment="value_change", period=None, watchdog=90.0):
+                     replication=None, k_target=None, pause_resume=False, collect_moment="value_change", period=None, watchdog=90.0, p_long=0.0, stall=None, start_delays=False):
     """one orchestrated thread-mode run, observed where commands/solve.py looks: orchestrator.status right after run()"""
     from pydcop.infrastructure.run import run_local_thread_dcop
     from pydcop.infrastructure import communication as comm_mod, agents as agents_mod, discovery as disc_mod, \
         orchestrator as orch_mod, orchestratedagents as oa_mod, computations as comp_mod
 
-    logging.disable(logging.CRITICAL)
+    # only ERROR records are let through, into a bounded in-memory list (agent threads log their death there)
+    logging.disable(logging.WARNING)
     rng = _r.Random(seed)
-    out = {"seed": seed, "algo": algo, "dist": dist_kind, "nagents": nagents, "errors": []}
+    out = {"seed": seed, "algo": algo, "dist": dist_kind, "nagents": nagents, "errors": [], "log_errors": []}
+
+    class _Cap(logging.Handler):
+        def emit(self, rec):
+            try:
+                if len(out["log_errors"]) < 12:
+                    out["log_errors"].append("%s: %s" % (rec.name, rec.getMessage()[:400]))
+            except Exception:
+                pass
+
+    cap = _Cap(level=logging.ERROR)
+    root = logging.getLogger()
+    root.addHandler(cap)
     dcop, agents, algo_def, cg = build_problem(case, algo, params, nagents)
     try:
         dist = make_distribution(dist_kind, cg, agents, rng, seed)
     except Exception as e:
         out["dist_error"] = "%s: %s" % (type(e).__name__, e)
+        root.removeHandler(cap)
+        logging.disable(logging.CRITICAL)
         return out
     out["mapping"] = {a: list(cs) for a, cs in dist.mapping().items()}
-    per = threaded.Perturb(seed, p_sleep=jitter_p, lines=lines)
+    per = threaded.Perturb(seed, p_sleep=jitter_p, lines=lines, p_long=p_long)
     Messaging = comm_mod.Messaging
     orig_post, orig_next = Messaging.post_msg, Messaging.next_msg
 
@@ -244,9 +259,36 @@ def run_orchestrated(case, algo, params, nagents, dist_kind, seed, timeout=20.0,
         return r
 
     Messaging.post_msg, Messaging.next_msg = post_msg, next_msg
+    orig_on_start = agents_mod.Agent._on_start
+    if start_delays:
+        drng = _r.Random(seed + 99)
+        dlock = threading.Lock()
+
+        def delayed_on_start(self):
+            # injected delay at thread start-up: some agents come up (and register) later than the others
+            with dlock:
+                d = drng.choice([0, 0, 0, 0.02, 0.06, 0.15]) if self.name != "orchestrator" else 0
+            if d:
+                out.setdefault("start_delays", {})[self.name] = d
+                time.sleep(d)
+            return orig_on_start(self)
+
+        agents_mod.Agent._on_start = delayed_on_start
     fatal = []
+    stall_state = {"done": False, "t_run": None}
+
+    def cb_jitter():
+        per.jitter()
+        # optional fault: one agent thread is stuck in a callback for `stall[1]` seconds, `stall[0]` seconds after run()
+        if stall is not None and not stall_state["done"] and stall_state["t_run"] is not None \
+                and time.time() - stall_state["t_run"] > stall[0] \
+                and threading.current_thread().name.startswith("thread_a"):
+            stall_state["done"] = True
+            out["stalled_thread"] = threading.current_thread().name
+            time.sleep(stall[1])
+
     if monitor is not None:
-        monitor.install(jitter=per.jitter)
+        monitor.install(jitter=cb_jitter)
     per.start(modules=(comm_mod, agents_mod, disc_mod, orch_mod, oa_mod, comp_mod))
     orch = None
     t0 = time.time()
@@ -270,6 +312,7 @@ def run_orchestrated(case, algo, params, nagents, dist_kind, seed, timeout=20.0,
                 except Exception as e:
                     out["errors"].append("pause/resume: %s" % e)
             threading.Thread(target=pr, name="pv_pause_resume", daemon=True).start()
+        stall_state["t_run"] = time.time()
         orch.run(timeout=timeout)
         out["run_wall"] = time.time() - t0
         out["status"] = orch.status
@@ -307,6 +350,7 @@ def run_orchestrated(case, algo, params, nagents, dist_kind, seed, timeout=20.0,
     finally:
         per.stop()
         Messaging.post_msg, Messaging.next_msg = orig_post, orig_next
+        agents_mod.Agent._on_start = orig_on_start
         if orch is not None:
             try:
                 if getattr(orch, "_timeout_timer", None):
@@ -317,8 +361,11 @@ def run_orchestrated(case, algo, params, nagents, dist_kind, seed, timeout=20.0,
                 out["errors"].append("stop: %s: %s" % (type(e).__name__, e))
         if monitor is not None:
             monitor.uninstall()
+        root.removeHandler(cap)
+        logging.disable(logging.CRITICAL)
     out["fatal"] = fatal
     out["injected"] = per.injected
+    out["long_sleeps"] = per.long_sleeps
     out["line_events"] = per.line_events
     out["wall"] = time.time() - t0
     out["threads_left"] = [t.name for t in threading.enumerate() if t.name.startswith("thread_")]
